@@ -10,3 +10,5 @@ def check(rep, tier):
     rep.run(core_rules.run, rep, tier, parts=("defvjp",))
     from contracts import programs_exact
     rep.run(programs_exact.run_zero, rep)
+    from contracts import guards
+    rep.run(guards.run_nograd_values, rep, tier)
